@@ -101,7 +101,13 @@ func c02MarkTable(e *Env, s *Sched) {
 				split = true
 				// every way of reaching the store, the lookup resolved entry by entry (an `ok`
 				// test, a test of a field, a call of an entry's function are all settled by the entry)
+				var ways [][]ir.NLit
 				for _, way := range e.waysTo(ev.Site) {
+					// conditions written through methods of the looked-up row (`rule.blocks(dep)`)
+					// are opened first, so that what they say about the row is settled by the entry too
+					ways = append(ways, e.expandHelperCalls(way, 0)...)
+				}
+				for _, way := range ways {
 					// make sure the lookup is mentioned so that it is resolved even without an ok test
 					for _, ta := range e.expandTableFields(append(append([]ir.NLit{}, way...), ir.NLit{Kind: "cmp", Op: token.EQL, X: ev.Val, Y: ev.Val})) {
 						ent, has := ta.Entries[lk]
